@@ -221,6 +221,13 @@ Lemma chunks_Forall {A} k (l : list A) :
   0 < k -> length l mod k = 0 -> Forall (fun b => length b = k) (chunks k l).
 Proof. intros. apply chunks_fuel_Forall; auto. Qed.
 
+Lemma concat_length_const {A} k (bs : list (list A)) :
+  Forall (fun b => length b = k) bs -> length (concat bs) = k * length bs.
+Proof.
+  induction 1 as [|b bs Hb Hall IH]; cbn [concat length]; [lia|].
+  rewrite app_length, IH, Hb. lia.
+Qed.
+
 (* ------------------------------------------------------------------------------------- *)
 (** * A 16-slot register file, used for the ChaCha20 state (16 words) and the AES state
       (16 bytes, column-major).  Being an inductive with a single constructor, the length
